@@ -40,6 +40,13 @@ R12h the request reaches the invocation it names: in cancel_instruction the exec
      cancel_instruction and force_instruction the mutation is refused unless the item is the record's latest invocation (after an
      Alarm re-armed or a macro was called again the node's flags describe the *new* invocation, and the state would be
      recorded on it).
+R12i one run-log item per invocation: PInterpreter.visit creates an instance id (state Created = a run-log item shown as
+     started with the node's flags) for the visit it starts. The visit methods of interrupt nodes (those that call
+     _register_interrupt and return without recording any state) are entered twice per invocation - by the program flow to
+     register and by the interrupt handler to run. If visit() creates an id on both entries, the first id never gets another
+     state: its item stays started/cancellable/forcible for the whole run, and since the node branch (R12h) serves only the
+     latest id, a request for that offered item is refused (before R12h: it was redirected to whatever invocation was current).
+     Rule: in visit() the creation is conditional, and the path that skips it is guarded by `interrupt_registered`.
 """
 from __future__ import annotations
 
@@ -331,37 +338,10 @@ def run(ctx) -> None:
 
     # ---- R12g
     ctx.rule("R12g", "a request whose instruction has concluded is not executed")
-    ec = cmc.methods.get("_execute_command")
-    if ec is None:
-        raise AnchorError("CommandManager._execute_command missing")
+    from ..cmdgate import concluded_gate
+    ok_, ec, disp = concluded_gate(prog, res)
     ctx.analysed(ec)
-    g = cfg_of(ec)
-    rpar = ec.node.args.args[1].arg
-    disp = [n for n in g.nodes if n.ast is not None and any(call_attr(c) in ("_execute_internal_command", "_execute_uod_command") for c in n.calls())]
-    if len(disp) < 2:
-        raise AnchorError("_execute_command: dispatch to the two executors not found")
-    guards = []
-    for t in g.nodes:
-        if t.kind != "test":
-            continue
-        for c in ast.walk(t.ast):
-            if isinstance(c, ast.Call) and any(isinstance(a, ast.Attribute) and isinstance(a.value, ast.Name) and a.value.id == rpar
-                                               and a.attr == "instance_id" for a in c.args):
-                for tgt in res.resolve_call(c, ec, cha=False):
-                    if is_conclusive_predicate(tgt):
-                        e_, neg = t.ast, False
-                        while isinstance(e_, ast.UnaryOp) and isinstance(e_.op, ast.Not):
-                            e_, neg = e_.operand, not neg
-                        if e_ is c:
-                            guards.append((t, "F" if neg else "T"))
     inst = "_execute_command: a request whose invocation has concluded is retired, not executed"
-    ok_ = False
-    for t, lab in guards:
-        reaches = g.search([(t.id, lab)], lambda n: any(n.id == d.id for d in disp), follow_exc=False)
-        retires = g.path_to_exit_avoiding([(t.id, lab)], lambda n: n.ast is not None and any(
-            call_attr(c) == "_executing_command_done" for c in n.calls()), follow_exc=False)
-        if reaches is None and retires is None and all(g.dominates(t, d) for d in disp):
-            ok_ = True
     if ok_:
         ctx.ok("R12g", inst)
     else:
@@ -386,6 +366,44 @@ def run(ctx) -> None:
         ctx.fail("R12h", ci, bad, inst, f"`{norm(bad)}` finds a request by command name: when another request of that name is executing (the item's own "
                  "command was superseded or has finished) the cancel hits that other instruction's running command and the item itself "
                  "stays as it was")
+    # ---- R12i
+    ctx.rule("R12i", "one instance id (run-log item) per invocation of an interrupt node")
+    pic = ctx.prog.cls("openpectus.lang.exec.pinterpreter:PInterpreter")
+    reg_visits = []
+    for nm, vf in sorted(pic.methods.items()):
+        if not nm.startswith("visit_"):
+            continue
+        gv = cfg_of(vf)
+        regs = [n for n in gv.nodes if n.ast is not None and any(call_attr(c) == "_register_interrupt" for c in n.calls())]
+        for rn in regs:
+            # from the registration to the exit without a tracking.mark_* call
+            hit = gv.search([rn.id], lambda n: n.id == gv.exit.id, blocked=lambda n: n.ast is not None and n.id != rn.id and any(
+                (call_attr(c) or "").startswith("mark_") for c in n.calls()), follow_exc=False)
+            if hit is not None:
+                reg_visits.append(nm)
+                break
+    if len(reg_visits) < 2:
+        raise AnchorError(f"visit methods that register an interrupt and return without recording a state: {reg_visits}, expected Watch and Alarm")
+    vis = pic.methods["visit"]
+    from ..util import local_single_defs as _lsd12i
+    ctx.analysed(vis)
+    gvis = cfg_of(vis)
+    creates = [n for n in gvis.nodes if n.ast is not None and any(call_attr(c) == "create_node_instance_id" for c in n.calls())]
+    disp = [n for n in gvis.nodes if n.ast is not None and any(isinstance(c.func, ast.Attribute) and c.func.attr == "visit" and isinstance(c.func.value, ast.Call)
+                                                                and norm(c.func.value.func) == "super" for c in n.calls())]
+    if not creates or not disp:
+        raise AnchorError("PInterpreter.visit: create_node_instance_id / super().visit dispatch not found")
+    inst = f"PInterpreter.visit: the handler's visit of {', '.join(reg_visits)} continues the instance of the registering visit"
+    cids = {n.id for n in creates}
+    skip = gvis.search(None, lambda n: n.id == disp[0].id, blocked=lambda n: n.id in cids)
+    guarded = all(any("interrupt_registered" in a for a, pol in facts_at(gvis, n, _lsd12i(vis))) or
+                  any("interrupt_registered" in norm(e) for e, pol in gvis.conditions_at(n)) for n in creates)
+    if skip is not None and guarded:
+        ctx.ok("R12i", inst, {"rule": "R12i", "registering_visits": reg_visits})
+    else:
+        ctx.fail("R12i", vis, creates[0].ast, inst, "every entry of visit() creates a new instance id: the id created by the registering visit of a Watch/Alarm "
+                 "never gets another state, so each Watch/Alarm leaves a second run-log item that is `started`, cancellable and forcible for "
+                 "the rest of the run; a cancel/force request for that offered item cannot act on the invocation it names")
     for mname in ("cancel_instruction", "force_instruction"):
         f = cmc.methods[mname]
         g = cfg_of(f)
